@@ -547,6 +547,8 @@ func run(r *vk.Run) {
 	forced(r)
 	readdEquivalent(r)
 	zeroBodies(r)
+	toleranceDrift(r)
+	deadOnArrival(r)
 	stress(r)
 	r.Require("forced-scenarios-run", 100)
 	r.Require("stress-runs", 100)
@@ -1040,6 +1042,232 @@ func readdEquivalent(r *vk.Run) {
 	}
 	r.MustQuiesce("c03-readd-end")
 	r.Require("readd-equivalent-scenarios", 30)
+}
+
+// toleranceDrift (F8): resources whose comparer is a tolerance (|difference of the level| <= 5, not transitive). A
+// writer walks the level in steps smaller than the tolerance; each step may be suppressed, but only against the value
+// the subscriber HOLDS: at every quiescent point the value the subscriber was last sent is equivalent to what Get
+// returns. (A baseline that moves with suppressed events lets the view drift away without bound.)
+func toleranceDrift(r *vk.Run) {
+	n := r.Pick(150, 8000)
+	near := resource.ComparerFunc(func(x, y proto.Message) bool {
+		a, b := asTat(x), asTat(y)
+		if a == nil || b == nil {
+			return false
+		}
+		d := a.DefaultInt32 - b.DefaultInt32
+		return d >= -5 && d <= 5
+	})
+	for i := 0; i < n; i++ {
+		if !r.Mine(i) {
+			continue
+		}
+		rng := r.CaseRand("c03-drift", i)
+		isValue := rng.Bool()
+		bp, uo, masked := rng.Bool(), rng.Chance(1, 3), rng.Chance(1, 3)
+		ro := []resource.ReadOption{resource.WithBackpressure(bp)}
+		if masked {
+			ro = append(ro, resource.WithReadPaths(&tat{}, "default_int32"))
+		}
+		ctx, cancel := context.WithCancel(context.Background())
+		var mu sync.Mutex
+		var held *tat
+		seen := 0
+		level := int32(20)
+		var val *resource.Value
+		var col *resource.Collection
+		if isValue {
+			ro = append(ro, resource.WithUpdatesOnly(uo))
+			val = resource.NewValue(resource.WithEquivalence(near), resource.WithClock(clk{}), resource.WithInitialValue(&tat{DefaultString: "v#0", DefaultInt32: level}))
+			ch := val.Pull(ctx, ro...)
+			go func() {
+				for e := range ch {
+					mu.Lock()
+					held = asTat(e.Value)
+					seen++
+					mu.Unlock()
+				}
+			}()
+		} else {
+			uo = false
+			col = resource.NewCollection(resource.WithEquivalence(near), resource.WithClock(clk{}), resource.WithInitialRecord("a", &tat{DefaultString: "a#0", DefaultInt32: level}), resource.WithInitialRecord("b", &tat{DefaultString: "b#0", DefaultInt32: 1}))
+			ch := col.Pull(ctx, ro...)
+			go func() {
+				for e := range ch {
+					if e.Id != "a" {
+						continue
+					}
+					mu.Lock()
+					held = asTat(e.NewValue)
+					seen++
+					mu.Unlock()
+				}
+			}()
+		}
+		if _, ok := r.MustQuiesce("c03-drift-open"); !ok {
+			cancel()
+			return
+		}
+		var trace []string
+		steps := rng.Range(3, 12)
+		dir := int32(1)
+		if rng.Bool() {
+			dir = -1
+		}
+		bad := ""
+		for k := 1; k <= steps && bad == ""; k++ {
+			if rng.Chance(1, 6) {
+				dir = -dir
+			}
+			level += dir * int32(rng.Range(1, 5))
+			next := &tat{DefaultString: fmt.Sprintf("w#%d", k), DefaultInt32: level}
+			var err error
+			if isValue {
+				_, err = val.Set(next)
+			} else {
+				_, err = col.Update("a", next)
+			}
+			trace = append(trace, fmt.Sprintf("write level %d -> %v", level, err))
+			if _, ok := r.MustQuiesce("c03-drift-step"); !ok {
+				cancel()
+				return
+			}
+			var stored proto.Message
+			if isValue {
+				stored = val.Get()
+			} else {
+				stored, _ = col.Get("a")
+			}
+			mu.Lock()
+			h, c := held, seen
+			mu.Unlock()
+			switch {
+			case h == nil && uo:
+				// an updates-only subscriber that was sent nothing yet is taken to hold the value of before the first write:
+				// still within tolerance of it or it would have been sent something
+				if d := level - 20; d < -5 || d > 5 {
+					bad = fmt.Sprintf("after step %d the updates-only subscriber has received nothing although the level moved from 20 to %d", k, level)
+				}
+			case h == nil:
+				bad = fmt.Sprintf("after step %d the subscriber holds nothing (%d events)", k, c)
+			case !near.Compare(h, stored):
+				bad = fmt.Sprintf("after step %d the subscriber holds level %d (%d events), Get returns level %d: further apart than the tolerance of 5", k, h.DefaultInt32, c, asTat(stored).DefaultInt32)
+			}
+		}
+		r.Eval(1)
+		r.Count("tolerance-drift-scenarios", 1)
+		kind := map[bool]string{true: "value", false: "pull"}[isValue]
+		r.Distinct(fmt.Sprintf("drift|%s|%v|%v|%v|%d", kind, bp, uo, masked, steps))
+		if bad != "" {
+			mode := map[bool]string{true: "bp", false: "lossy"}[bp]
+			r.Violation("C03/fold/"+kind+"/"+mode+"/tolerance-drift", fmt.Sprintf("case %d (updates-only %v, read mask %v): %s\n%s", i, uo, masked, bad, strings.Join(trace, "\n")), map[string]any{"case": i})
+		}
+		cancel()
+	}
+	r.MustQuiesce("c03-drift-end")
+	r.Require("tolerance-drift-scenarios", 40)
+}
+
+// deadOnArrival (F9): a subscription opened with a context that is already done (Pull, PullID, Value.Pull; seeded or
+// updates-only) next to a healthy subscriber. The dead one must not take anything with it: the next write completes
+// and reaches the healthy subscriber, whose view equals Get.
+func deadOnArrival(r *vk.Run) {
+	idx := 0
+	for _, kind := range []string{"pull", "pullid", "value"} {
+		for _, uo := range []bool{false, true} {
+			for _, bp := range []bool{false, true} {
+				for _, deadFirst := range []bool{true, false} {
+					idx++
+					if !r.Mine(idx) {
+						continue
+					}
+					base := vk.IDs(vk.Goroutines())
+					dead, kill := context.WithCancel(context.Background())
+					kill()
+					ctx, cancel := context.WithCancel(context.Background())
+					ro := []resource.ReadOption{resource.WithBackpressure(bp), resource.WithUpdatesOnly(uo)}
+					col := resource.NewCollection(resource.WithClock(clk{}), resource.WithInitialRecord("a", &tat{DefaultString: "a#0", DefaultInt32: 1}))
+					val := resource.NewValue(resource.WithClock(clk{}), resource.WithInitialValue(&tat{DefaultString: "v#0", DefaultInt32: 1}))
+					var mu sync.Mutex
+					var last *tat
+					openDead := func() {
+						switch kind {
+						case "pull":
+							_ = col.Pull(dead, ro...)
+						case "pullid":
+							_ = col.PullID(dead, "a", ro...)
+						default:
+							_ = val.Pull(dead, ro...)
+						}
+					}
+					if deadFirst {
+						openDead()
+					}
+					if kind == "value" {
+						ch := val.Pull(ctx, resource.WithBackpressure(true))
+						go func() {
+							for e := range ch {
+								mu.Lock()
+								last = asTat(e.Value)
+								mu.Unlock()
+							}
+						}()
+					} else {
+						ch := col.PullID(ctx, "a", resource.WithBackpressure(true))
+						go func() {
+							for e := range ch {
+								mu.Lock()
+								last = asTat(e.Value)
+								mu.Unlock()
+							}
+						}()
+					}
+					if !deadFirst {
+						openDead()
+					}
+					if _, ok := r.MustQuiesce("c03-doa-open"); !ok {
+						cancel()
+						return
+					}
+					next := &tat{DefaultString: "w#1", DefaultInt32: 2}
+					var err error
+					t := vk.Go(func() {
+						if kind == "value" {
+							_, err = val.Set(next)
+						} else {
+							_, err = col.Update("a", next)
+						}
+					})
+					gs, ok := r.MustQuiesce("c03-doa-write")
+					if !ok {
+						cancel()
+						return
+					}
+					r.Eval(1)
+					r.Count("dead-on-arrival-scenarios", 1)
+					r.Distinct(fmt.Sprintf("doa|%s|%v|%v|%v", kind, uo, bp, deadFirst))
+					mode := map[bool]string{true: "bp", false: "lossy"}[bp]
+					key := "C03/fold/" + kind + "/" + mode + "/dead-on-arrival"
+					desc := fmt.Sprintf("a %s subscription (updates-only %v) opened with an already cancelled context (before the healthy subscriber: %v)", kind, uo, deadFirst)
+					replay := map[string]any{"kind": kind, "updatesOnly": uo, "bp": bp, "deadFirst": deadFirst}
+					if !t.Done() {
+						r.Violation(key+"/writer-stuck", fmt.Sprintf("%s: the next write has not returned at the quiescent point\n%s", desc, vk.DescribeGs(vk.LibraryGoroutines(gs, base))), replay)
+						cancel()
+						return // the stuck goroutines stay
+					}
+					mu.Lock()
+					h := last
+					mu.Unlock()
+					if err != nil || h == nil || !proto.Equal(h, next) {
+						r.Violation(key+"/healthy-subscriber-stale", fmt.Sprintf("%s: the write returned %v, the healthy subscriber holds %s, Get returns %s", desc, err, vk.JSON(h), vk.JSON(next)), replay)
+					}
+					cancel()
+					r.MustQuiesce("c03-doa-end")
+				}
+			}
+		}
+	}
+	r.Require("dead-on-arrival-scenarios", 10)
 }
 
 // zeroBodies (F7): items created with a body that has nothing set (the zero message), Values set to the zero
